@@ -137,6 +137,68 @@ fn main() {
                 }
             }
         }
+        // The session object underneath Matcher / Constraint (TokenParser, public): prompt processing with a canonical
+        // tokenizer, then sampling, fast-forward tokens, rollbacks INTO the tokens that process_prompt() put into the
+        // history, reset.  Calls are wrapped in catch_unwind (TokenParser itself does not catch panics): a panic is an
+        // outcome the protocol specification has no action for.
+        if case["tp"].as_u64().unwrap_or(0) == 1 {
+            let cvoc = byte_vocab(true);
+            let cfgd = json!({"slices": [], "limits": case["limits"], "ff_tokens": 1});
+            let cfg = Cfg::new(cvoc, 0, &cfgd).expect("factory");
+            let built = vh::sess::grammar_from_desc(&gram).and_then(|tg| cfg.factory.create_parser(tg));
+            if let Ok(mut tp) = built {
+                use std::panic::{catch_unwind, AssertUnwindSafe};
+                let mut tcall = |tr: &mut Trace, name: &str, r: std::thread::Result<Result<(), String>>, tp: &llguidance::TokenParser, t0: Instant| {
+                    let (ok, cls) = match &r {
+                        Ok(Ok(_)) => (1, String::new()),
+                        Ok(Err(e)) => (0, err_class(e)),
+                        Err(_) => (0, "panic".to_string()),
+                    };
+                    tr.ev(json!({"ev":"TCall","name":name,"ok":ok,"cls":cls,"st":tp.stop_reason().to_string(),"nt":tp.num_tokens(),"mt":0,"ms":ms(t0)}));
+                    tr.flush();
+                };
+                let plen = rng.below(3);
+                let prompt: Vec<u32> = (0..plen).map(|_| 97 + rng.below(3) as u32).collect();
+                let t0 = Instant::now();
+                let r = catch_unwind(AssertUnwindSafe(|| { tp.process_prompt(prompt.clone()); Ok(()) }));
+                tcall(&mut tr, "process_prompt", r, &tp, t0);
+                for _ in 0..case["ncalls"].as_u64().unwrap_or(10) {
+                    if tp.stop_reason().to_string() == "InternalError" {
+                        break;
+                    }
+                    let t0 = Instant::now();
+                    match rng.below(8) {
+                        0..=3 => {
+                            let r = catch_unwind(AssertUnwindSafe(|| tp.compute_mask().map_err(|e| e.to_string())));
+                            let ids = match &r { Ok(Ok(m)) => mask_ids(m), _ => vec![] };
+                            tcall(&mut tr, "mask", r.map(|x| x.map(|_| ())), &tp, t0);
+                            if !ids.is_empty() {
+                                let t = *rng.pick(&ids);
+                                let t0 = Instant::now();
+                                let r = catch_unwind(AssertUnwindSafe(|| tp.consume_token(t).map(|_| ()).map_err(|e| e.to_string())));
+                                tcall(&mut tr, "consume", r, &tp, t0);
+                                let t0 = Instant::now();
+                                let r = catch_unwind(AssertUnwindSafe(|| tp.check_stop().map(|_| ()).map_err(|e| e.to_string())));
+                                tcall(&mut tr, "check_stop", r, &tp, t0);
+                            }
+                        }
+                        4 | 5 => {
+                            let k = rng.below(tp.num_tokens() + 1);
+                            let r = catch_unwind(AssertUnwindSafe(|| tp.rollback(k).map_err(|e| e.to_string())));
+                            tcall(&mut tr, "rollback", r, &tp, t0);
+                        }
+                        6 => {
+                            let r = catch_unwind(AssertUnwindSafe(|| tp.reset().map_err(|e| e.to_string())));
+                            tcall(&mut tr, "reset", r, &tp, t0);
+                        }
+                        _ => {
+                            let r = catch_unwind(AssertUnwindSafe(|| tp.consume_ff_tokens().map(|_| ()).map_err(|e| e.to_string())));
+                            tcall(&mut tr, "consume_ff", r, &tp, t0);
+                        }
+                    }
+                }
+            }
+        }
         unsafe {
             libc::alarm(0);
         }
